@@ -136,10 +136,21 @@ Fixpoint sum_float (f c:spec_float) (l:list num) : option spec_float :=
       else match float_of_int n with Some x => sum_generic (fadd (fold_comp f c) x) r | None => None end
   end.
 (* the whole of sum(values) starting from int 0; result: exact int, or float, or None = OverflowError *)
+(* the generic loop: plain left-to-right Python addition, no compensation *)
+Definition add_num (a b:num) : option num :=
+  match a, b with
+  | NI x, NI y => Some (NI (x + y))
+  | NI x, NF y => match float_of_int x with Some fx => Some (NF (fadd fx y)) | None => None end
+  | NF x, NI y => match float_of_int y with Some fy => Some (NF (fadd x fy)) | None => None end
+  | NF x, NF y => Some (NF (fadd x y)) end.
+Fixpoint sum_any (acc:num) (l:list num) : option num :=
+  match l with [] => Some acc | x :: r => match add_num acc x with Some a => sum_any a r | None => None end end.
+(* integer fast path: only while the running sum and the item fit a C long; an integer beyond that sends the REST of the list - later reals
+   included - through the generic loop (found by the thorough float slice: 1 disagreement in 100,000 programs) *)
 Fixpoint py_sum (isum:Z) (l:list num) : option num :=
   match l with
   | [] => Some (NI isum)
-  | NI n :: r => py_sum (isum + n) r
+  | NI n :: r => if fits_long n && fits_long (isum + n) then py_sum (isum + n) r else sum_any (NI (isum + n)) r
   | NF x :: r => match float_of_int isum with
                  | Some fi => match sum_float (fadd fi x) f_zero r with Some f => Some (NF f) | None => None end
                  | None => None end
